@@ -222,6 +222,18 @@ func binary(c *mon.Case) {
 		if got, want := a.IntersectsCellID(id), ma.Intersects(mi); got != want {
 			c.Violation("IntersectsCellID/wrong-answer", fmt.Sprintf("IntersectsCellID=%v, leaf sets say %v", got, want), d)
 		}
+		// the Cell / Point forms are documented as the same tests on the cell's id / the point's leaf cell
+		if got, want := a.ContainsCell(s2.CellFromCellID(id)), ma.ContainsSet(mi); got != want {
+			c.Violation("ContainsCell/wrong-answer", fmt.Sprintf("ContainsCell=%v, leaf sets say %v", got, want), d)
+		}
+		if got, want := a.IntersectsCell(s2.CellFromCellID(id)), ma.Intersects(mi); got != want {
+			c.Violation("IntersectsCell/wrong-answer", fmt.Sprintf("IntersectsCell=%v, leaf sets say %v", got, want), d)
+		}
+		if id.IsLeaf() {
+			if got, want := a.ContainsPoint(id.Point()), ma.ContainsSet(mi); got != want {
+				c.Violation("ContainsPoint/wrong-answer", fmt.Sprintf("ContainsPoint(centre of leaf %s)=%v, leaf sets say %v", id.ToToken(), got, want), d)
+			}
+		}
 		g := ref.FromCells(ids(s2.CellUnionFromIntersectionWithCellID(a, id)))
 		if !g.Equal(ma.Intersect(mi)) {
 			c.Violation("CellUnionFromIntersectionWithCellID/wrong-set/wrong-answer", "intersection with a single cell covers the wrong leaves", d)
